@@ -8,6 +8,7 @@ import (
 	"servitor/mime"
 	"servitor/pub"
 	"sync"
+	"time"
 )
 
 /* Verification shim (scratch copy only). */
@@ -121,4 +122,31 @@ func (s *State) VerifSettledHookHeld() bool {
 	}
 	page := s.h.Current()
 	return !page.loadingUp && !page.loadingDown
+}
+
+/* A state showing one item, as after `open` has finished loading it: what the keys of a
+   whole-item op are typed into (number keys, Enter, o, p, b go through the real Update). */
+func VerifStateOnItem(item pub.Tangible, width, height int, output func(string)) *State {
+	s := NewState(width, height, output)
+	s.m.Lock()
+	s.h.Add(&Page{feed: feed.Create(item)})
+	s.mode = normal
+	s.m.Unlock()
+	return s
+}
+
+/* Types the bytes through the real Update and waits until a hook they started has exited. */
+func (s *State) VerifType(keys string) {
+	for i := 0; i < len(keys); i++ {
+		s.Update(keys[i])
+	}
+	for {
+		s.m.Lock()
+		m := s.mode
+		s.m.Unlock()
+		if m != opening {
+			return
+		}
+		time.Sleep(200 * time.Microsecond)
+	}
 }
